@@ -1,0 +1,48 @@
+// Copyright 2025 The Go Authors. All rights reserved.
+// Use of this source code is governed by a BSD-style
+// license that can be found in the LICENSE file.
+
+//go:build !verif
+
+// Package verifhook provides event hooks for external verification harnesses.
+//
+// In regular builds every hook is an empty function that the compiler
+// inlines away. Under the build tag "verif" the hooks record events
+// (see hook_on.go).
+package verifhook
+
+import "unsafe"
+
+// Enabled reports whether the hooks record anything in this build.
+const Enabled = false
+
+// Kinds of lazily initialized objects.
+const (
+	MessageInfo uint8 = 1
+	FileDesc    uint8 = 2
+)
+
+// Phases of a double-checked initialization (slow path).
+const (
+	Enter       uint8 = 1 // fast-path check failed, before taking the lock
+	Locked      uint8 = 2 // lock acquired
+	RecheckHit  uint8 = 3 // found initialized under the lock
+	RecheckMiss uint8 = 4 // found uninitialized under the lock, body starts
+	BodyDone    uint8 = 5 // body finished, done flag not yet stored
+	Stored      uint8 = 6 // done flag stored
+	Unlocking   uint8 = 7 // about to release the lock
+)
+
+// LazyEnter is called when lazyUnmarshal starts for field num of the message at msg.
+func LazyEnter(msg unsafe.Pointer, num int32) {}
+
+// LazyDecoded is called after the field was decoded into the fresh object mine,
+// before it is published.
+func LazyDecoded(msg unsafe.Pointer, num int32, mine unsafe.Pointer) {}
+
+// LazyPublished is called after the publishing compare-and-swap; cell is the
+// value of the field pointer read back afterwards.
+func LazyPublished(msg unsafe.Pointer, num int32, mine, cell unsafe.Pointer) {}
+
+// Init is called at the phases of MessageInfo.initOnce and File.lazyInitOnce.
+func Init(kind uint8, obj unsafe.Pointer, phase uint8) {}
